@@ -105,7 +105,7 @@ def observe(lib, cases, literal=True, checks=('value',), extra_env=None, ranges=
         for a, e in forms:
             h = F.Harnessed(lib, e)
             text = F.render(a)
-            o = h.parse(text)
+            o = h.parse(text, again=len(obs) % 3 == 2)
             o.update({'id': len(obs) + 1, 'ast': a, 'env': e, 'formula': text, 'checks': list(checks),
                       'in': {'f': f, 'args': args, 'formula': text}})
             obs.append(o)
